@@ -458,6 +458,49 @@ def rollback_cover(ctx: Ctx):
         return False, (f'handlers {widest} do not cover BaseException: an interrupt (KeyboardInterrupt/SystemExit) during the save '
                        'leaves the partial entry behind')
 
+    def good_finally(t: ast.Try) -> tuple[bool, str]:
+        """The success-flag form: `done = False; try: <writes>; done = True; finally: if not done: storage.delete(key)`.
+        Any exception (BaseException included) leaves the try body before the flag is set, the finally block deletes the
+        entry and the exception continues to propagate by itself."""
+        if not t.finalbody or not t.body:
+            return False, 'no finally block'
+        last = t.body[-1]
+        if not (isinstance(last, ast.Assign) and len(last.targets) == 1 and isinstance(last.targets[0], ast.Name)
+                and isinstance(last.value, ast.Constant) and last.value.value is True):
+            return False, 'the try body does not end by setting a success flag'
+        flag = last.targets[0].id
+        other = [n for b in t.body[:-1] for n in ast.walk(b) if isinstance(n, ast.Name) and n.id == flag and isinstance(n.ctx, ast.Store)]
+        if other:
+            return False, f'the success flag `{flag}` is also assigned earlier in the try body'
+        g = ctx.cfg(save)
+        rd = ctx.rd(save)
+        first = g.primary(t.body[0])
+        defs = rd.reaching(first, flag)
+        vals = [rd.def_value(d, flag) for d in defs]
+        if not vals or not all(v and v[0] == 'value' and isinstance(v[1], ast.Constant) and v[1].value is False for v in vals):
+            return False, f'the success flag `{flag}` is not False on entry to the try'
+        for h in t.handlers:
+            if not _handler_always_raises(ctx, save, h):
+                return False, 'a handler of the try swallows the exception'
+            if any(isinstance(n, ast.Name) and n.id == flag and isinstance(n.ctx, ast.Store) for n in ast.walk(h)):
+                return False, 'a handler assigns the success flag'
+        guards = [s for s in t.finalbody if isinstance(s, ast.If) and isinstance(s.test, ast.UnaryOp) and isinstance(s.test.op, ast.Not)
+                  and isinstance(s.test.operand, ast.Name) and s.test.operand.id == flag]
+        if not guards:
+            return False, f'the finally block has no `if not {flag}:` rollback'
+        gd = guards[0]
+        before = t.finalbody[:t.finalbody.index(gd)]
+        if any(isinstance(n, (ast.Return, ast.Raise, ast.Break, ast.Continue)) for b in before for n in ast.walk(b)):
+            return False, 'the finally block can leave before the rollback'
+        dels = [c for c in storage_calls(ctx, save, ('delete',)) if any(x is c for x in ast.walk(gd))]
+        if not dels or not any(s0 is st or any(x is dels[0] for x in ast.walk(st)) for st in gd.body[:1] for s0 in [st]):
+            return False, 'the rollback branch does not start by deleting the entry'
+        if not same_expr(kwarg(dels[0], 'key', 0), ast.parse('task.cache_key', mode='eval').body):
+            return False, f'the rollback deletes `{src(kwarg(dels[0], "key", 0))}`, not task.cache_key'
+        if any(isinstance(n, (ast.Return, ast.Break, ast.Continue)) for b in t.finalbody for n in ast.walk(b)):
+            return False, 'the finally block swallows the exception (return / break / continue)'
+        return True, ''
+
     for s in stmts:
         covering = [t for t in tries if any(x is s for b in t.body for x in ast.walk(b))]
         if not covering:
@@ -466,6 +509,10 @@ def rollback_cover(ctx: Ctx):
                          'outside the try whose handler removes the partial entry')
             continue
         res = [good_handler(t) for t in covering]
+        if not any(r[0] for r in res):
+            res2 = [good_finally(t) for t in covering if t.finalbody]
+            if any(r[0] for r in res2):
+                res = res2
         ok = any(r[0] for r in res)
         yield ctx.ob('C12.ROLLBACK-COVER', ok, save, s, f'write effect `{src(s)[:50]}` covered by the rollback handler',
                      '' if ok else res[0][1])
